@@ -582,8 +582,19 @@ func (ex *Exec) block(p *pend) *Thread {
 		HarnessError("hooked operation %s called from outside a managed thread", kindName[p.kind])
 	}
 	t.pend = p
-	if ex.eagerReturn(t) {
-		<-t.wake
+	if n := len(ex.eager); n > 0 && ex.eager[n-1].t == t {
+		if ex.arrivalVisible(p) {
+			// another thread may poll this unbuffered channel (select with default): whether this thread
+			// has arrived at the operation is observable, so the arrival stays a separate visible step
+			t.pend = resumePend
+			ex.eagerReturn(t)
+			<-t.wake
+			t.pend = p
+			ex.dispatch(t)
+		} else {
+			ex.eagerReturn(t)
+			<-t.wake
+		}
 	} else {
 		ex.dispatch(t)
 	}
@@ -638,6 +649,19 @@ func Go(site string, f func()) {
 		// (removes the separate "thread start" scheduling point)
 		ex.runUntilYield(t)
 	}
+}
+
+// arrivalVisible: does publishing p change what a polling operation of another thread can observe?
+func (ex *Exec) arrivalVisible(p *pend) bool {
+	if p.kind != kChan || (ex.x != nil && ex.x.NoPolling) {
+		return false
+	}
+	for _, c := range p.cases {
+		if c.co != nil && c.co.cap == 0 {
+			return true
+		}
+	}
+	return false
 }
 
 type eagerFrame struct {
